@@ -293,6 +293,7 @@ impl<'a> SendLastStateProofProcess<'a> {
                     } else if reorg_count == 0 {
                         new_last_headers
                     } else if sampled_count == 0
+                        && last_n_count != 0
                         && check_continuous_headers(&headers[(reorg_count - 1)..=reorg_count])
                             .is_ok()
                     {
@@ -835,6 +836,15 @@ pub(crate) fn check_if_response_is_matched(
             );
                 return Err(StatusCode::MalformedProtocolMessage.with_context(errmsg));
             }
+        } else if start_number < last_header.header().number() {
+            // If the start block is before the last block, at least one block of
+            // `[start_number, last_number)` has to be returned; reorg blocks only are not enough.
+            let errmsg = format!(
+                "there should be all blocks of [{}, {}) since no sampled blocks, but got none of them",
+                start_number,
+                last_header.header().number()
+            );
+            return Err(StatusCode::MalformedProtocolMessage.with_context(errmsg));
         }
     } else {
         // Check if the sampled headers are subject to requested difficulties distribution.
